@@ -2,6 +2,7 @@ package props
 
 import (
 	"fmt"
+	hessian "github.com/vogo/gohessian"
 	"strings"
 	"time"
 	"unsafe"
@@ -191,6 +192,13 @@ func placeBad(pos string, bad interface{}, ch *explore.Chooser) interface{} {
 	return h
 }
 
+func pickBytes(first bool, a, b []byte) []byte {
+	if first {
+		return a
+	}
+	return b
+}
+
 // decodesBack reports whether the library's own decoder accepts the bytes (with maps extracted from the value).
 func decodesBack(val interface{}, b []byte) bool {
 	tm, _, p := Maps(val)
@@ -251,6 +259,27 @@ func init() {
 									c.Report(&core.Violation{Stage: "encode", Kind: "success-reported", Shape: shape, Message: "encode succeeded for a value containing an unrepresentable part", Case: desc, Detail: det + " | " + hexs(enc.Bytes), Choices: ch.Choices()})
 								default:
 									c.Outcome("error")
+								}
+								// the same value three times through one Encoder and one Serializer: every call has to fail
+								// (whatever an earlier refused call left behind)
+								var e2, e3 error
+								var b2, b3 []byte
+								if p := core.Catch(func() {
+									e := hessian.NewEncoder(nil, copyNameMap(nm))
+									z := hessian.NewSerializer(nil, copyNameMap(nm))
+									for k := 0; k < 3; k++ {
+										b2, e2 = e.Encode(val)
+										b3, e3 = z.ToBytes(val)
+										if e2 == nil || e3 == nil {
+											break
+										}
+									}
+								}); p != "" {
+									c.Report(&core.Violation{Stage: "encode", Kind: "panic", Shape: shape + " reused", Message: msgClass(p), Case: desc + " (encoded repeatedly on one instance)", Choices: ch.Choices()})
+								} else if (e2 == nil || e3 == nil) && !(strings.Contains(bk.name, " nil ") && decodesBack(val, pickBytes(e2 == nil, b2, b3))) {
+									c.Report(&core.Violation{Stage: "encode", Kind: "success-reported", Shape: shape + " reused", Message: "a repeated encode of the same unrepresentable value on one Encoder / Serializer succeeded", Case: desc + " (encoded repeatedly on one instance)", Choices: ch.Choices()})
+								} else {
+									c.Outcome("error-when-repeated")
 								}
 							}
 							if c.WantSample() && ki == 3 {
